@@ -34,9 +34,25 @@ import (
 )
 
 func TestMain(m *testing.M) {
+	pinProtocolConstants()
 	heartbeat()
 	p2p.VerifSetSched(sched)
 	evid.Main(m, "C17")
+}
+
+// documentedMaxRetries: a request is retried 3 times = 4 attempts (pkg/p2p/message_protocol.go "messageMaxRetries = 3
+// // Maximum number of retries for a request message"). Every budget of this package (handler runs and attempts per
+// call, Broadcast attempts, elapsed-time bounds, attempt plans of the generators) reads p2p.VerifMaxRetries() for
+// convenience; it is pinned here, before anything else in every process of the package (every tier, every shard), so
+// that a changed constant fails the run instead of moving the oracle with it.
+const documentedMaxRetries = 3
+
+func pinProtocolConstants() {
+	if got := p2p.VerifMaxRetries(); got != documentedMaxRetries {
+		fmt.Printf("--- FAIL: TestMain (C17): p2p.messageMaxRetries = %d, documented retry budget %d (= %d attempts per request); the retry budget is part of the statement: "+
+			"a changed constant is a violation, not a new expectation\nFAIL\n", got, documentedMaxRetries, documentedMaxRetries+1)
+		os.Exit(1)
+	}
 }
 
 // ---- signatures of the known findings (narrow: another violation of C17 is still reported) ----
@@ -236,6 +252,89 @@ type caseState struct {
 	bInv   map[string][]*bRec
 	bGids  map[int64]bool
 	probes [][2]int
+	// Own-clock LOWER bound of the response timer (audit 2026-09): "the request is no longer waiting" is learnt from the
+	// engine's own timeout-fired schedule point everywhere in this package (lost-reply rule, stalled-peer rule, late
+	// replies of the storm class), so a timer that fires BEFORE the timeout set through VerifSetTimeout would move every
+	// one of these oracles with it (a reply arriving inside the real deadline would count as late). For every attempt
+	// (requester goroutine, message ID) the moment the after-send callback returns is read from this process's monotonic
+	// clock - the engine creates its timer after that -; when timeout-fired is reached on the same goroutine the elapsed
+	// time must be >= the timeout in force - timerTolerance. A timer cannot fire early because of load, only late, so the
+	// rule needs no heartbeat guard. expT = timeout currently set (ns); sends/earlyTO/timers* under mu.
+	expT          atomic.Int64
+	sends         map[sendKey]sendRec
+	earlyTO       []string
+	earlyN        int
+	timersChecked int
+	timersNoSend  int           // timeout-fired without a recorded after-send of that goroutine and ID, or not attributable to this case (not judged)
+	minMargin     time.Duration // smallest (elapsed - timeout) seen in this case
+}
+
+const (
+	sigTimerEarly  = "deadline:response-timer-fired-before-the-timeout"
+	timerTolerance = time.Millisecond // clock granularity; Go timers and the monotonic clock never run ahead
+)
+
+type sendKey struct {
+	g  int64
+	id string
+}
+
+type sendRec struct {
+	at  time.Time
+	exp int64
+	own bool // sent by a goroutine that is executing a RequestFrom call of this case
+}
+
+// markSent: the after-send callback of goroutine g for message ID id is about to return (the engine arms its response
+// timer only afterwards).
+func (cs *caseState) markSent(g int64, id string, own bool) {
+	exp := cs.expT.Load()
+	cs.mu.Lock()
+	if cs.sends == nil {
+		cs.sends = map[sendKey]sendRec{}
+	}
+	cs.sends[sendKey{g, id}] = sendRec{at: time.Now(), exp: exp, own: own}
+	cs.mu.Unlock()
+}
+
+// checkTimer: goroutine g reached timeout-fired for message ID id; fired was read from the own clock on entry of the
+// callback (so it is not earlier than the moment the engine's timer fired).
+func (cs *caseState) checkTimer(g int64, id string, fired time.Time) {
+	exp := cs.expT.Load()
+	cs.mu.Lock()
+	defer cs.mu.Unlock()
+	k := sendKey{g, id}
+	r, ok := cs.sends[k]
+	if !ok {
+		cs.timersNoSend++
+		return
+	}
+	delete(cs.sends, k)
+	// Only requests of THIS case are judged (its timeout is the one this case set on its own cluster): the requester runs a
+	// RequestFrom call of the case, or a handler of the case recorded the message ID for one of its Broadcast calls (the
+	// payload names case and call). A straggler of an abandoned cluster (wedged / over budget earlier) runs with that
+	// cluster's timeout and is none of our business.
+	if !r.own && len(cs.bInv[id]) == 0 {
+		cs.timersNoSend++
+		return
+	}
+	if r.exp < exp { // the timeout was changed between send and now (liveness probe): the smaller value is the bound
+		exp = r.exp
+	}
+	waited := fired.Sub(r.at)
+	margin := waited - time.Duration(exp)
+	if cs.timersChecked == 0 || margin < cs.minMargin {
+		cs.minMargin = margin
+	}
+	cs.timersChecked++
+	if margin < -timerTolerance {
+		cs.earlyN++
+		if len(cs.earlyTO) < 3 {
+			cs.earlyTO = append(cs.earlyTO, fmt.Sprintf("message ID %s (requester goroutine %d): the response timer fired %v after the after-send schedule point returned, "+
+				"the response timeout set through VerifSetTimeout is %v (own monotonic clock; a reply arriving in the remaining %v would be treated as late)",
+				id, g, waited, time.Duration(exp), time.Duration(exp)-waited))
+		}
+	}
 }
 
 // idEvents: what onResponse did with the responses carrying one message ID.
@@ -359,6 +458,7 @@ func waitAny(limit time.Duration, chs ...<-chan struct{}) bool {
 
 // sched is the process-wide schedule-point callback (p2p.VerifSetSched).
 func sched(point string, id string) {
+	now := time.Now() // own monotonic clock, read before anything else (see checkTimer)
 	cs := curCase()
 	if cs == nil {
 		return
@@ -370,6 +470,7 @@ func sched(point string, id string) {
 		cs.mu.Lock()
 		c := cs.byGid[g]
 		cs.mu.Unlock()
+		defer cs.markSent(g, id, c != nil) // last thing before the engine goes on to arm its response timer (every return below)
 		if c == nil {
 			return
 		}
@@ -394,6 +495,9 @@ func sched(point string, id string) {
 		cs.mu.Unlock()
 	case p2p.VerifPointTimeout:
 		g := gid() // the point is reached on the requester's goroutine
+		// "Timed out" is the engine's word; before any oracle below takes it as the end of the waiting period, the timer
+		// must not have fired earlier than the timeout this harness set (own clock, lower bound only).
+		cs.checkTimer(g, id, now)
 		cs.mu.Lock()
 		var a *attState
 		if c := cs.byGid[g]; c != nil {
@@ -500,6 +604,8 @@ func onUnknown(id string) {
 	// request was missing and its reply has just been dropped.
 	e := cs.ev(id)
 	e.unknown++
+	// (timeoutFired is the engine's own statement; that its timer did not fire before the timeout set by this harness is
+	// checked separately on the own clock, see checkTimer)
 	waiting := 0
 	for _, o := range cs.owners[id] {
 		if o.entered && !o.timeoutFired && !o.call.ctxOver() {
@@ -756,9 +862,12 @@ type verdict struct {
 	// other-error results of calls whose context had been cancelled (libp2p reports a cancellation during stream
 	// negotiation as "i/o deadline reached")
 	otherCancelledN int
-	tw              twinStats  // identical-payload groups (twins_test.go)
-	bc              bcastStats // Broadcast calls (bcast_test.go)
-	cx              ctxStats   // context shapes (ctx_test.go)
+	// response timers whose own-clock lower bound was checked (checkTimer) / timeout-fired events without a recorded send
+	timersChecked, timersNoSend int
+	timerMinMargin              time.Duration
+	tw                          twinStats  // identical-payload groups (twins_test.go)
+	bc                          bcastStats // Broadcast calls (bcast_test.go)
+	cx                          ctxStats   // context shapes (ctx_test.go)
 }
 
 func (v *verdict) add(sig, format string, a ...any) {
@@ -910,6 +1019,7 @@ func runCase(w *workload) (*verdict, error) {
 		}
 		cs.calls = append(cs.calls, c)
 	}
+	cs.expT.Store(int64(T))
 	cs.initTwins()
 	if w.Storm || w.Star > 0 { // liveness probe afterwards: one fresh fast call per probe pair, created now (the handler indexes cs.calls)
 		cs.probes = probePairs(w)
@@ -1240,6 +1350,10 @@ func (cs *caseState) evaluate(v *verdict, finished bool) {
 	maxRuns := p2p.VerifMaxRetries() + 1
 	if n := cs.misrte.Load(); n > 0 {
 		v.add("correlation:request-at-wrong-node", "%d requests reached a node they were not addressed to", n)
+	}
+	v.timersChecked, v.timersNoSend, v.timerMinMargin = cs.timersChecked, cs.timersNoSend, cs.minMargin
+	for _, s := range cs.earlyTO {
+		v.add(sigTimerEarly, "%s; %d of %d timers of this case fired early", s, cs.earlyN, cs.timersChecked)
 	}
 	cs.attributeTwinRuns()
 	sort.Strings(cs.lostOut)
@@ -1664,6 +1778,20 @@ func record(t fataler, kind string, w *workload, v *verdict) (knownHit bool) {
 	evid.R.Label("race:found-after-timer-fired", int64(v.foundTO))
 	evid.R.Label("raw-duplicates-sent", int64(v.dupsSent))
 	evid.R.Label("hold-cap-hit", int64(v.capHits))
+	evid.R.Label("deadline:response-timers-fired(own-clock lower bound checked)", int64(v.timersChecked))
+	evid.R.Label("deadline:timeout-fired-without-recorded-send-or-not-of-this-case(not judged)", int64(v.timersNoSend))
+	if v.timersChecked > 0 {
+		switch m := v.timerMinMargin; {
+		case m < 0:
+			evid.R.Label("deadline:smallest (elapsed - timeout) of the case: < 0 (within the 1 ms tolerance)", 1)
+		case m < time.Millisecond:
+			evid.R.Label("deadline:smallest (elapsed - timeout) of the case: 0..1 ms", 1)
+		case m < 10*time.Millisecond:
+			evid.R.Label("deadline:smallest (elapsed - timeout) of the case: 1..10 ms", 1)
+		default:
+			evid.R.Label("deadline:smallest (elapsed - timeout) of the case: >= 10 ms", 1)
+		}
+	}
 	for _, s := range v.incon {
 		evid.R.Inconclusive("%s", s)
 	}
